@@ -13,8 +13,14 @@ CLAIMED = {
  "C08": ("trace validation against Frame!Chars8/CallsignOK (TLC): every code at every position, pairs, padding", "7/C08"),
  "C09": ("exhaustive trace validation against ModeAC!Identity (TLC): all codes in three carriers", "7/C09"),
  "C10": ("trace validation against Frame!MEFields/MBFields (TLC): field sweeps under DF17/18/20/21, dispatch grid", "7/C10"),
+ "C12": ("TLC model checking of MC_Tracker (bounded abstract tracker, invariants CountExact/AddedIffNew/Isolation/OnlyExpiryShrinks) + trace validation of recorded histories (one per distinct model state, plus random) against Trace_Tracker", "7/C12"),
+ "C13": ("TLC: MC_Tracker invariants Plausible/PublishedWithinJump/ClearedCompletely + trace validation with CPR!GlobalDecode and Geo (fixed-point haversine, guard bands) incl. threshold flights along meridians/equator", "7/C13"),
+ "C14": ("TLC: MC_Tracker invariants LatestWins/DistIffPos/TrackIsSuperseded + trace validation of attributes and derived views (details, all_position, Display) after every step", "7/C14"),
+ "C15": ("TLC: MC_Tracker PruneRemovesExactly/ReaddedIsFresh + trace validation of tick/prune histories driven through the guarded verif_backdate hook", "7/C15"),
 }
 NOT_YET = {}
+import subprocess
+HOOKS = [l.split()[0] for l in subprocess.run(['git','-C','/repo','log','--format=%H %s'],capture_output=True,text=True).stdout.splitlines() if l.split(' ',1)[1].startswith('hook:')]
 def main():
     props = [json.loads(l) for l in open(os.path.join(V, "properties.jsonl"))]
     checks = []
@@ -40,7 +46,7 @@ def main():
           for p in props if p["id"] not in CLAIMED]
     m = {"version": 1, "setup_cmd": "./check setup",
          "hooks": {"guard": "rsadsb_adsb_deku_verif", "enable": "RUSTFLAGS='--cfg rsadsb_adsb_deku_verif --check-cfg cfg(rsadsb_adsb_deku_verif)' (set by harness/.cargo/config.toml and by drivers/core.py for the apps)",
-                   "baseline_off_cmd": "cd /repo && cargo test --workspace --no-fail-fast --offline", "source_commits": [], "add_only": True},
+                   "baseline_off_cmd": "cd /repo && cargo test --workspace --no-fail-fast --offline", "source_commits": HOOKS, "add_only": True},
          "engines": [{"name": "tlc-trace", "path": "drivers/core.py", "serves_properties": sorted(CLAIMED),
                       "kind_free_text": "TLC 1.8 model checking of spec/MC_*.tla and trace validation of ndjson recordings (spec/Trace_*.tla); Rust recorder harness/hx"}],
          "checks": checks, "not_applicable": na,
